@@ -86,9 +86,11 @@ class CFor:
 
 
 class CWhile:
-    """only between the parser and sa.cptr, which turns counted pointer walks into for loops"""
+    """only between the parser and sa.cptr, which turns counted pointer walks into for loops; steps: statements of a for header that
+    run at the end of every iteration (also after `continue`)"""
     def __init__(self, cond, body, line):
         self.cond, self.body, self.line = cond, body, line
+        self.steps = []
 
 
 class CIf:
@@ -244,8 +246,18 @@ class Parser:
             steps = self.simple_list() if self.peek().val != ')' else []
             self.expect(')')
             body = self.body_or_stmt()
-            if len(inits) <= 1 and len(steps) <= 1:
+            cv0 = unparse(cond.left) if isinstance(cond, ast.Compare) else None
+            counted = len(inits) == 1 and len(steps) == 1 and isinstance(inits[0], CAssign) and isinstance(steps[0], CAssign) and \
+                unparse(inits[0].target) == cv0 and unparse(steps[0].target) == cv0
+            if counted or (len(inits) <= 1 and len(steps) <= 1 and cond is None):
                 return [CFor(inits[0] if inits else None, cond, steps[0] if steps else None, body, line)]
+            if not [x for x in inits if isinstance(x, CAssign) and unparse(x.target) == cv0] or not [x for x in steps if isinstance(x, CAssign) and unparse(x.target) == cv0] \
+                    or not all(isinstance(x, CAssign) for x in inits + steps):
+                # not a loop over an integer it initialises itself (for (; p < end; p++, q++) ...): initialisers first, then a while
+                # loop whose steps run at the end of every iteration, also after `continue` (sa.cptr turns counted walks into for loops)
+                w = CWhile(cond, list(body), line)
+                w.steps = list(steps)
+                return list(inits) + [w]
             # for (i = 0, p = q; i < n; i++, p += m) body   ==   p = q; for (i = 0; i < n; i++) { body; p += m; }
             # (the loop's own variable is the one the condition tests; valid when the body has no `continue`)
             cv = unparse(cond.left) if isinstance(cond, ast.Compare) else None
@@ -693,7 +705,20 @@ def c_inline_new_scalars(f, recorded):
                 if a is None or b is None:
                     return None
                 return 'double' if 'double' in (a, b) else 'int'
+            # comparisons and && || ! yield the int 0 or 1 in C
+            if isinstance(e, ast.Compare) and len(e.ops) == 1 and ty(e.left) is not None and ty(e.comparators[0]) is not None:
+                return 'int'
+            if isinstance(e, ast.BoolOp) and all(ty(v) is not None for v in e.values):
+                return 'int'
+            if isinstance(e, ast.UnaryOp) and isinstance(e.op, ast.Not) and ty(e.operand) is not None:
+                return 'int'
+            if isinstance(e, ast.Subscript) and isinstance(e.value, ast.Name):
+                return array_types.get(e.value.id)
             return None
+        array_types = {pn: _base_type(pt) for pt, pn in f.params if '*' in pt}
+        for st_ in f.walk():
+            if isinstance(st_, CDecl) and (st_.pointer or st_.array):
+                array_types[st_.name] = _base_type(st_.ctype)
         cands = [n for n in decls if n not in recorded and types.get(n) in ('int', 'double')]
         progressed = False
         for name in cands:
